@@ -212,6 +212,7 @@ struct Rules<'a> {
     r1: bool,
     r3: bool,
     r4: bool,
+    r9: bool,
     hoists: &'a [Value],
     inlines: &'a [Value],
     log: &'a mut Vec<Value>,
@@ -339,6 +340,23 @@ impl<'a> VisitMut for Rules<'a> {
         }
     }
     fn visit_expr_for_loop_mut(&mut self, f: &mut syn::ExprForLoop) {
+        if self.r9 {
+            // `impl IntoIterator for &mut Vec<T>` is `self.iter_mut()`, for `&Vec<T>` it is `self.iter()` (std definition)
+            if let Expr::Reference(r) = &*f.expr {
+                if matches!(&*r.expr, Expr::Path(_) | Expr::Field(_)) {
+                    let inner = &r.expr;
+                    let (m, ne): (&str, Expr) = if r.mutability.is_some() {
+                        ("iter_mut", parse_quote!(#inner.iter_mut()))
+                    } else {
+                        ("iter", parse_quote!(#inner.iter()))
+                    };
+                    self.log.push(json!({"rule":"R9","file":self.file,"line":Self::line(r.and_token.span),
+                        "what":format!("in {}: `for .. in {}` written as `for .. in {}.{}()` (std's IntoIterator impl for references to Vec)",
+                            self.cur_fn, norm(&f.expr.to_token_stream()), norm(&inner.to_token_stream()), m)}));
+                    f.expr = Box::new(ne);
+                }
+            }
+        }
         if self.r4 {
             if let Pat::Reference(pr) = &*f.pat {
                 if let Pat::Ident(pi) = &*pr.pat {
@@ -597,7 +615,7 @@ fn main() {
                 // 2. rules
                 AttrStrip { derive_keep: &derive_keep, log: &mut log, file, apply_r2: rules.contains("R2") }.visit_item_mut(&mut item);
                 let mut r = Rules {
-                    r1: rules.contains("R1"), r3: rules.contains("R3"), r4: rules.contains("R4"),
+                    r1: rules.contains("R1"), r3: rules.contains("R3"), r4: rules.contains("R4"), r9: rules.contains("R9"),
                     hoists, inlines, log: &mut log, file, cur_fn: String::new(), hoist_hits: vec![0; hoists.len()],
                 };
                 r.visit_item_mut(&mut item);
